@@ -194,3 +194,366 @@ def extract(ctx):
     ]
     C.write_if_changed(C.LEAN / "BlueskyVerif" / "IO" / "TiledWriterGenerated.lean", "\n".join(out))
     return facts
+
+
+# ============================================================================ real implementation (in-memory tiled)
+_TILED = {}
+_CALLS = []
+
+
+def _tiled():
+    """The in-memory catalog exactly as src/bluesky/tests/test_tiled_writer.py builds it (fixtures catalog/app/context/client)."""
+    if _TILED:
+        return _TILED
+    warnings.simplefilter("ignore")
+    import atexit
+    import logging
+    import shutil
+
+    import tiled.catalog
+    import tiled.client as tc
+    import tiled.server.app
+
+    from bluesky.callbacks.tiled_writer import _RunWriter
+
+    logging.getLogger("tiled").setLevel(logging.ERROR)
+    logging.getLogger("httpx").setLevel(logging.ERROR)
+    tmp = tempfile.mkdtemp(prefix="verif_c46_")
+    catalog = tiled.catalog.in_memory(writable_storage={"filesystem": tmp, "sql": f"duckdb:///{tmp}/test.db"}, readable_storage=[tmp])
+    app = tiled.server.app.build_app(catalog)
+    context = tc.Context.from_app(app)
+    context.__enter__()
+    client = tc.from_context(context)
+    # external file the stream resources point to (only its registration is exercised)
+    try:
+        import h5py
+        import numpy as np
+
+        with h5py.File(os.path.join(tmp, "dataset.h5"), "w") as f:
+            f.create_group("entry").create_group("data").create_dataset("data_1", data=np.arange(400, dtype="float64"))
+    except Exception:  # noqa: BLE001
+        pass
+    # observation wrappers (inside the harness process; /repo is not touched)
+    if not getattr(_RunWriter, "_verif_wrapped", False):
+        orig_int, orig_ext = _RunWriter._write_internal_data, _RunWriter._write_external_data
+
+        def wi(self, data_cache, desc_node):
+            _CALLS.append(("int", self.root_node.item["id"], desc_node.item["id"], [r["seq_num"] for r in data_cache]))
+            return orig_int(self, data_cache, desc_node)
+
+        def we(self, doc):
+            _CALLS.append(("ext", self.root_node.item["id"], doc["stream_resource"], {"uid": doc["uid"], "i0": doc["indices"]["start"], "i1": doc["indices"]["stop"], "s0": doc["seq_nums"]["start"], "s1": doc["seq_nums"]["stop"]}))
+            return orig_ext(self, doc)
+
+        _RunWriter._write_internal_data, _RunWriter._write_external_data = wi, we
+        _RunWriter._verif_wrapped = True
+
+    def _close():
+        try:
+            context.__exit__(None, None, None)
+        except Exception:  # noqa: BLE001
+            pass
+        shutil.rmtree(tmp, ignore_errors=True)
+
+    atexit.register(_close)
+    _TILED.update(client=client, tmp=tmp, n=0)
+    return _TILED
+
+
+def _val(key, kind, seq):
+    return {"number": seq * 0.5, "integer": seq * 3, "string": f"{key}{seq}", "array": [seq, seq + 1]}[kind]
+
+
+def build_docs(case, uid):
+    """abstract case -> real documents (deterministic) + the abstract op list for the model"""
+    docs = [("start", {"uid": uid, "time": 1.0, "scan_id": 7, "plan_name": "verif", "md": {"batch": case["batch"]}})]
+    streams = case["streams"]
+    desc_uid = {}
+    seq = {}
+
+    def descriptor(si, gen):
+        s = streams[si]
+        data_keys = {k: {"source": "SIM:" + k, "dtype": kind, "shape": [] if kind != "array" else [2]} for k, kind in s["keys"].items()}
+        objs = {"dev": list(s["keys"])}
+        for k in s["ext"]:
+            data_keys[k] = {"source": "file", "dtype": "number", "dtype_numpy": "<f8", "shape": [1], "external": "STREAM:", "object_name": "cam"}
+            objs.setdefault("cam", []).append(k)
+        u = f"{uid}-d{si}-{gen}"
+        desc_uid[si] = u
+        conf = {o: {"data": {}, "timestamps": {}, "data_keys": {}} for o in objs}
+        return ("descriptor", {"uid": u, "name": s["name"], "run_start": uid, "time": 1.5, "data_keys": data_keys, "object_keys": objs, "configuration": conf, "hints": {}})
+
+    for si, s in enumerate(streams):
+        docs.append(descriptor(si, 0))
+        seq[si] = 0
+        for k in s["ext"]:
+            docs.append(("stream_resource", {"uid": f"{uid}-sr{si}-{k}", "data_key": k, "mimetype": "application/x-hdf5", "uri": "file://localhost/" + _tiled()["tmp"].lstrip("/") + "/dataset.h5", "parameters": {"dataset": "/entry/data/data_1", "chunk_shape": [100]}, "run_start": uid}))
+
+    def event(si):
+        seq[si] += 1
+        s = streams[si]
+        n = seq[si]
+        return {"uid": f"{uid}-e{si}-{n}", "time": 2.0 + n, "seq_num": n, "descriptor": desc_uid[si], "data": {k: _val(k, kind, n) for k, kind in s["keys"].items()}, "timestamps": {k: 2.0 + n + 0.25 for k in s["keys"]}, "filled": {}}
+
+    ops = []
+    nsd = 0
+    for op in case["ops"]:
+        if op[0] == "event":
+            e = event(op[1])
+            docs.append(("event", e))
+            ops.append({"op": "event", "stream": streams[op[1]]["name"], "seq": e["seq_num"]})
+        elif op[0] == "page":
+            es = [event(op[1]) for _ in range(op[2])]
+            keys = list(streams[op[1]]["keys"])
+            docs.append(("event_page", {"uid": [e["uid"] for e in es], "time": [e["time"] for e in es], "seq_num": [e["seq_num"] for e in es], "descriptor": desc_uid[op[1]], "data": {k: [e["data"][k] for e in es] for k in keys}, "timestamps": {k: [e["timestamps"][k] for e in es] for k in keys}, "filled": {}}))
+            ops += [{"op": "event", "stream": streams[op[1]]["name"], "seq": e["seq_num"]} for e in es]
+        elif op[0] == "sdat":
+            _, si, k, i0, i1 = op
+            nsd += 1
+            d = {"uid": f"{uid}-sr{si}-{k}/{nsd}", "stream_resource": f"{uid}-sr{si}-{k}", "descriptor": desc_uid[si], "indices": {"start": i0, "stop": i1}, "seq_nums": {"start": i0 + 1, "stop": i1 + 1}}
+            docs.append(("stream_datum", d))
+            ops.append({"op": "sdat", "uid": d["uid"], "sres": d["stream_resource"], "desc": d["descriptor"], "i0": i0, "i1": i1, "s0": i0 + 1, "s1": i1 + 1})
+        elif op[0] == "redescribe":
+            docs.append(descriptor(op[1], seq[op[1]] + 1000))
+        else:
+            raise ValueError(op)
+    docs.append(("stop", {"uid": uid + "-stop", "time": 99.0, "run_start": uid, "exit_status": "success", "reason": "", "num_events": {streams[si]["name"]: seq[si] for si in seq}}))
+    return docs, ops
+
+
+def run_impl(case):
+    """Write the run with the real TiledWriter into the real in-memory catalog and read it back."""
+    from bluesky.callbacks.tiled_writer import TiledWriter
+
+    T = _tiled()
+    T["n"] += 1
+    uid = f"verif-{os.getpid()}-{T['n']:05d}"
+    docs, ops = build_docs(case, uid)
+    client = T["client"]
+    tw = TiledWriter(client) if case["batch"] is None else TiledWriter(client, batch_size=case["batch"])
+    del _CALLS[:]
+    err = None
+    try:
+        for name, doc in docs:
+            tw(name, copy.deepcopy(doc))
+    except Exception as e:  # noqa: BLE001
+        err = f"{type(e).__name__}: {str(e)[:200]}"
+    calls = [c for c in _CALLS if c[1] == uid]
+    obs = {"err": err, "parts": {}, "ext": {}, "tables": {}, "arrays": {}, "meta": {}}
+    for kind, _, key, payload in calls:
+        if kind == "int":
+            obs["parts"].setdefault(key, []).append(payload)
+        else:
+            obs["ext"].setdefault(key, []).append(payload)
+    if err is None:
+        run = client[uid]
+        md = dict(run.metadata)
+        obs["meta"] = {"start": md.get("start"), "stop": md.get("stop")}
+        for s in case["streams"]:
+            if s["name"] not in run:
+                continue
+            node = run[s["name"]]
+            base = node.base
+            if "internal" in base:
+                df = base["internal"].read()
+                obs["tables"][s["name"]] = {c: [x.tolist() if hasattr(x, "tolist") else x for x in df[c].tolist()] for c in df.columns}
+            for k in s["ext"]:
+                if k in base:
+                    obs["arrays"][f"{s['name']}/{k}"] = list(base[k].shape)
+    return obs, docs, ops, uid
+
+
+def oracle(case, obs, docs):
+    """C46 on what the real catalog holds after the stop document."""
+    bad = []
+    b = case["batch"]
+    bcls = "default" if b is None else ("le1" if b <= 1 else "gt1")
+    if obs["err"]:
+        bad.append((f"writer-raised:batch-{bcls}", f"TiledWriter raised {obs['err']}"))
+        return bad
+    start = next(d for n, d in docs if n == "start")
+    stop = next(d for n, d in docs if n == "stop")
+    if obs["meta"].get("start") != json.loads(json.dumps(start)):
+        bad.append(("metadata:start", f"container start metadata {obs['meta'].get('start')} != RunStart"))
+    if obs["meta"].get("stop") != json.loads(json.dumps(stop)):
+        bad.append(("metadata:stop", f"container stop metadata {obs['meta'].get('stop')} != RunStop"))
+    # events per stream, pages unpacked
+    per = {}
+    for n, d in docs:
+        if n == "event":
+            per.setdefault(d["descriptor"], []).append(d)
+        elif n == "event_page":
+            for i in range(len(d["seq_num"])):
+                per.setdefault(d["descriptor"], []).append({"seq_num": d["seq_num"][i], "time": d["time"][i], "data": {k: v[i] for k, v in d["data"].items()}, "timestamps": {k: v[i] for k, v in d["timestamps"].items()}})
+    name_of = {d["uid"]: d["name"] for n, d in docs if n == "descriptor"}
+    by_stream = {}
+    for n, d in docs:  # arrival order across descriptors of one stream
+        if n in ("event", "event_page"):
+            pass
+    order = []
+    for n, d in docs:
+        if n == "event":
+            order.append((name_of[d["descriptor"]], d))
+        elif n == "event_page":
+            for i in range(len(d["seq_num"])):
+                order.append((name_of[d["descriptor"]], {"seq_num": d["seq_num"][i], "time": d["time"][i], "data": {k: v[i] for k, v in d["data"].items()}, "timestamps": {k: v[i] for k, v in d["timestamps"].items()}}))
+    for nm, e in order:
+        by_stream.setdefault(nm, []).append(e)
+    for s in case["streams"]:
+        evs = by_stream.get(s["name"], [])
+        tab = obs["tables"].get(s["name"])
+        if not evs:
+            if tab and len(tab.get("seq_num", [])):
+                bad.append((f"rows:invented:batch-{bcls}", f"stream {s['name']} has no events but the table has {len(tab['seq_num'])} rows"))
+            continue
+        want = [e["seq_num"] for e in evs]
+        got = list(tab["seq_num"]) if tab else []
+        if got != want:
+            n, bb = len(want), (b if b is not None else 10000)
+            if len(got) < len(want) and got == want[: len(got)]:
+                kind = "last-partial-batch-lost" if (bb > 1 and len(got) == (n // bb) * bb) else "suffix-lost"
+            elif len(got) > len(set(got)):
+                kind = "duplicated"
+            elif sorted(got) == sorted(want):
+                kind = "order"
+            else:
+                kind = "other"
+            bad.append((f"rows:{kind}:batch-{bcls}", f"stream {s['name']} batch_size={b}: table seq_nums {got}, events {want}"))
+            continue
+        for k in s["keys"]:
+            col = tab.get(k)
+            wantc = [e["data"][k] for e in evs]
+            if col != wantc:
+                bad.append((f"rows:values:batch-{bcls}", f"stream {s['name']} column {k}: {col} != {wantc}"))
+            if tab.get("ts_" + k) != [e["timestamps"][k] for e in evs]:
+                bad.append((f"rows:timestamps:batch-{bcls}", f"stream {s['name']} column ts_{k}"))
+        if tab.get("time") != [e["time"] for e in evs]:
+            bad.append((f"rows:time:batch-{bcls}", f"stream {s['name']} time column"))
+    # arrays
+    widths = {}
+    for n, d in docs:
+        if n == "stream_datum":
+            widths[d["stream_resource"]] = widths.get(d["stream_resource"], 0) + d["indices"]["stop"] - d["indices"]["start"]
+    sres = {d["uid"]: d for n, d in docs if n == "stream_resource"}
+    for uid_, w in widths.items():
+        sr = sres[uid_]
+        si = int(uid_.rsplit("-sr", 1)[1].split("-")[0])
+        key = f"{case['streams'][si]['name']}/{sr['data_key']}"
+        shape = obs["arrays"].get(key)
+        if shape is None or shape[0] != w:
+            bad.append((f"array-length:batch-{bcls}", f"{key}: array shape {shape}, stream datums received cover {w} rows (batch_size={b})"))
+    return bad
+
+
+# ============================================================================ generators
+# (list-valued columns are left out: how tiled's SQL storage returns them is a matter of the trusted storage layer)
+_KEYSETS = [{"x": "number"}, {"x": "number", "y": "integer"}, {"x": "number", "label": "string"}, {"y": "integer", "label": "string", "z": "number"}]
+
+
+def gen_case(rng, batch=None, n_streams=None, n_events=None):
+    ns = n_streams or rng.choice([1, 1, 2, 3])
+    streams = []
+    for i in range(ns):
+        streams.append({"name": ["primary", "baseline", "monitor"][i], "keys": dict(rng.choice(_KEYSETS)), "ext": (["det"] if rng.random() < 0.5 else [])})
+    total = n_events if n_events is not None else rng.choice([0, 1, 2, 3, 5, 7, 9])
+    ops = []
+    nxt = {i: 0 for i in range(ns) if streams[i]["ext"]}
+    left = total
+    while left > 0:
+        si = rng.randrange(ns)
+        if rng.random() < 0.25 and left >= 2:
+            n = rng.randint(2, min(4, left))
+            ops.append(["page", si, n])
+            left -= n
+            produced = n
+        else:
+            ops.append(["event", si])
+            left -= 1
+            produced = 1
+        if si in nxt:
+            r = rng.random()
+            w = rng.choice([1, 1, 2, 3]) if produced == 1 else produced
+            if r < 0.75:
+                ops.append(["sdat", si, "det", nxt[si], nxt[si] + w])
+                nxt[si] += w
+            elif r < 0.85:  # a gap: concatenation fails, both are written separately
+                ops.append(["sdat", si, "det", nxt[si] + 2, nxt[si] + 2 + w])
+                nxt[si] += 2 + w
+        if rng.random() < 0.06:
+            ops.append(["redescribe", si])
+    if batch is None:
+        batch = rng.choice([0, 1, 1, 2, 2, 3, 4, 5, max(total, 1), total + 1, 10000, None])
+    return {"batch": batch, "streams": streams, "ops": ops}
+
+
+def exhaustive(n):
+    """one stream, n events, every batch size 0..n+1 (and the default)"""
+    for b in [*range(0, n + 2), None]:
+        ops = []
+        for i in range(n):
+            ops.append(["event", 0])
+            ops.append(["sdat", 0, "det", i, i + 1])
+        yield {"batch": b, "streams": [{"name": "primary", "keys": {"x": "number", "y": "integer"}, "ext": ["det"]}], "ops": ops}
+
+
+def _cases(ctx):
+    corpus = C.VERIF / "corpus" / "C46"
+    if corpus.exists():
+        for f in sorted(corpus.glob("*.json")):
+            yield json.loads(f.read_text())["case"]
+    big = ctx.tier == "thorough" or ctx.deep
+    yield from exhaustive(5 if big else 3)
+    if big:
+        yield from exhaustive(2)
+    for _ in range(ctx.budget(10, 280)):
+        yield gen_case(ctx.rng)
+
+
+def run(ctx, model=True):
+    res = C.Result(rule="cases = corpus + one stream of n events+stream datums at EVERY batch size 0..n+1 and the default (n=3; thorough 5 and 2) "
+                        "+ random runs: 1-3 streams, interleaved events / event pages, internal columns of 4 dtypes, external stream datums "
+                        "(contiguous, with gaps, re-described streams), batch sizes 0,1,2,..,n,n+1,10000,default; every run is written into the REAL "
+                        "in-memory tiled catalog and read back; non-trivial = some partition is flushed before stop, a page, a failed concatenation, or more than one stream")
+    reqs, meta = [], []
+    for case in _cases(ctx):
+        obs, docs, ops, uid = run_impl(case)
+        for sig, what in oracle(case, obs, docs):
+            res.violations.append(C.Violation(sig, what, case))
+        b = case["batch"]
+        res.seen(case, bool(len(case["streams"]) > 1 or any(o[0] in ("page", "redescribe") for o in case["ops"]) or any(len(p) > 1 for p in obs["parts"].values()) or any(len(v) > 1 for v in obs["ext"].values())))
+        res.count("batch:" + ("default" if b is None else ("<=1" if b <= 1 else (">=events" if b >= sum(1 for o in ops if o["op"] == "event") else "partial"))))
+        res.count(f"streams:{len(case['streams'])}")
+        res.count("events:" + str(sum(1 for o in ops if o["op"] == "event")))
+        streams = [s["name"] for s in case["streams"]]
+        sres = sorted({o["sres"] for o in ops if o["op"] == "sdat"})
+        canon = {"parts": {s: obs["parts"].get(s, []) for s in streams}, "ext": {k: obs["ext"].get(k, []) for k in sres}}
+        reqs.append(json.dumps({"batch": 10000 if b is None else b, "ops": ops, "streams": streams, "sres": sres}))
+        meta.append((case, canon, uid))
+    if model:
+        replies = C.lean_batch(DRIVER, reqs)
+        for (case, canon, uid), rep in zip(meta, replies):
+            m = json.loads(rep)
+            mm = {"parts": m["parts"], "ext": m["ext"]}
+            if mm != canon or any(v != 0 for v in m["left"].values()):
+                res.disagreements.append({"case": case, "model": m, "impl": canon})
+        for i in (0, len(meta) // 2, len(meta) - 1):
+            res.samples.append({"case": meta[i][0], "impl": meta[i][1], "model": json.loads(replies[i])})
+    else:
+        res.samples.append({"case": meta[-1][0], "impl": meta[-1][1]})
+    res.notes.append("BATCH_SIZE default is used as 10000 in the model request when the case says batch=None (extracted constant is in the evidence facts)")
+    return res
+
+
+def run_impl_only(ctx):
+    return run(ctx, model=False)
+
+
+def replay(ctx, data):
+    res = C.Result()
+    case = data.get("case")
+    if not case:
+        return res
+    obs, docs, ops, uid = run_impl(case)
+    for sig, what in oracle(case, obs, docs):
+        res.violations.append(C.Violation(sig, what, case))
+    return res
